@@ -36,6 +36,8 @@ MIRI_TARGETS = {
 MIRI_SYSROOT = os.path.join(VERIF, ".cache", "miri")
 MIRI_FLAGS = "-Zmiri-disable-isolation -Zmiri-disable-stacked-borrows -Zmiri-permissive-provenance"
 
+TSAN = {"T-tsan": "x86_64-unknown-linux-gnu"}
+
 X_CFG = {
     # name: (cargo feature args, extra rustflags, profile)
     "X-nostd": (["--no-default-features"], "", "release"),
@@ -131,6 +133,7 @@ def ensure(configs, run_dir, repo, log):
         need_emu = [c for c in configs if c in EMU_CFG or c in EMU_PLAIN]
         need_x = [c for c in configs if c in X_CFG]
         need_miri = [c for c in configs if c in MIRI_TARGETS]
+        need_tsan = [c for c in configs if c in TSAN]
         scratch = scratch_root(repo)
         try:
             ws = HARNESS
@@ -187,6 +190,15 @@ def ensure(configs, run_dir, repo, log):
                             notes[c] = out
                         else:
                             bins[c] = dict(copy_bins(tdir, profile, run_dir, c), level="auto")
+            for c in need_tsan:
+                triple = TSAN[c]
+                tdir = os.path.join(HARNESS, "target-tsan") if default_repo else os.path.join(scratch, "target-tsan")
+                argv = ["cargo", "+nightly", "build", "-Zbuild-std", "--target", triple, "--release", "-p", "mvcore", "--bin", "mvexec"]
+                rc, out = sh(argv, env_with(RUSTFLAGS=BASE_FLAGS + " -Zsanitizer=thread", CARGO_TARGET_DIR=tdir), ws, log)
+                if rc != 0:
+                    notes[c] = out
+                else:
+                    bins[c] = copy_bins(tdir, "release", run_dir, c, triple=triple)
             for c in need_miri:
                 triple, flags = MIRI_TARGETS[c]
                 tdir = os.path.join(HARNESS, "target-miri") if default_repo else os.path.join(scratch, "target-miri")
